@@ -191,6 +191,8 @@ namespace
                     break;
                 }
                 case 6: { Stmt s; s.tag = 6; s.label = l.at(1); s.a = l.at(2); s.b = l.at(3); p.stmts[s.label] = s; break; }
+                case 10: { Stmt s; s.tag = 10; s.label = l.at(1); s.a = l.at(2); s.b = l.at(3); p.stmts[s.label] = s; break; }   // anchor: path a, node b
+                case 11: { Stmt s; s.tag = 11; s.label = l.at(1); s.a = l.at(2); s.b = l.at(3); s.kind = (int)l.at(4); p.stmts[s.label] = s; break; }  // client: path a, node b, receive = kind
                 case 8: p.orders.emplace_back(l.begin() + 2, l.end()); break;
                 case 12:
                 {
@@ -227,6 +229,12 @@ namespace
     {
         std::map<std::int64_t, std::vector<std::pair<std::int64_t, std::int64_t>>> streams;  // sink label -> (time, value)
         std::map<std::int64_t, std::int64_t>                                      evals;    // creator label -> evaluations
+        // service rank contract: out-of-band hand-over between nodes that the contract orders within a cycle.
+        // roles by creator label; a sender leaves (time, value) in the path's request box, the anchor adds the
+        // requests left THIS cycle and leaves its result in the reply box, a receiver adds the reply of THIS cycle.
+        std::map<std::int64_t, std::vector<std::int64_t>>                          senders, anchors, receivers;
+        std::map<std::int64_t, std::map<std::int64_t, std::pair<std::int64_t, std::int64_t>>> requests;   // path -> sender -> (t, v)
+        std::map<std::int64_t, std::pair<std::int64_t, std::int64_t>>              replies;                // path -> (t, v)
     };
 
     std::int64_t weight_sc(const NodeRt &n)
@@ -411,6 +419,29 @@ namespace
                         return;
                     }
                     std::int64_t v = combine_inputs(*rt, view, t);
+                    if (auto r = run_->receivers.find(rt->label); r != run_->receivers.end())
+                    {
+                        for (auto path : r->second)
+                        {
+                            auto b = run_->replies.find(path);
+                            if (b != run_->replies.end() && b->second.first == us(t)) { v = (v + 3 * b->second.second) % 1000003; }
+                        }
+                    }
+                    if (auto a = run_->anchors.find(rt->label); a != run_->anchors.end())
+                    {
+                        for (auto path : a->second)
+                        {
+                            for (const auto &[sender, tv] : run_->requests[path])
+                            {
+                                if (tv.first == us(t)) { v = (v + 5 * tv.second) % 1000003; }
+                            }
+                        }
+                        for (auto path : a->second) { run_->replies[path] = {us(t), v}; }
+                    }
+                    if (auto sd = run_->senders.find(rt->label); sd != run_->senders.end())
+                    {
+                        for (auto path : sd->second) { run_->requests[path][rt->label] = {us(t), v}; }
+                    }
                     if (rt->kind == 2) { run_->streams[rt->label].emplace_back(us(t), v); return; }
                     if (rt->def >= 6)   // stateful definition: running sum over its own previous output
                     {
@@ -473,6 +504,22 @@ namespace
                     auto b = ports.find(s.b);
                     if (a == ports.end() || b == ports.end()) { throw Inadmissible("dep"); }
                     w.add_rank_dependency(a->second.peered_node(), b->second.peered_node());
+                    break;
+                }
+                case 10:
+                case 11:
+                {
+                    auto n = ports.find(s.b);
+                    if (n == ports.end()) { throw Inadmissible("service"); }
+                    const WiringInstance *inst = n->second.peered_node();
+                    const std::string     path = "svc/p" + std::to_string(s.a);
+                    const std::int64_t    who  = creator.at(inst);
+                    if (s.tag == 10) { w.register_service_rank_anchor(path, inst); run->anchors[who].push_back(s.a); }
+                    else
+                    {
+                        w.register_service_client_rank(path, "hgv rank driver", inst, s.kind != 0);
+                        (s.kind != 0 ? run->receivers : run->senders)[who].push_back(s.a);
+                    }
                     break;
                 }
                 default: break;
@@ -553,6 +600,7 @@ namespace
         if (m.find("cycle between delayed_binding placeholders") != std::string::npos) { return 7; }
         if (m.find("already bound") != std::string::npos) { return 8; }
         if (m.find("passive would deactivate every input") != std::string::npos) { return 9; }
+        if (m.find("conflicting service/adaptor rank anchor") != std::string::npos) { return 10; }
         return 5;
     }
 
